@@ -135,7 +135,8 @@ var valueGen = rapid.Custom(func(t *rapid.T) string {
 		}
 		return vk.Hex([]byte(w))
 	}
-	n := rapid.OneOf(rapid.IntRange(0, 12), rapid.IntRange(0, 40)).Draw(t, "len")
+	// also far beyond every field width, around the 8-bit size boundaries (a width comparison done in a narrow type wraps there)
+	n := rapid.OneOf(rapid.IntRange(0, 12), rapid.IntRange(0, 40), rapid.IntRange(0, 12), rapid.SampledFrom([]int{127, 128, 129, 255, 256, 257, 258, 259, 260, 263, 264, 266, 267, 276, 277, 300, 511, 512, 513, 515, 522})).Draw(t, "len")
 	b := make([]byte, 0, n)
 	for len(b) < n {
 		switch rapid.IntRange(0, 9).Draw(t, "cls") {
@@ -311,7 +312,10 @@ func TestCMPPStatusReport(t *testing.T) {
 		}
 		rec.Class("cmpp_status_report")
 		rec.Sample("cmpp-report", ref.ToJ(b.Spec, v))
-		if viol := gen.RoundTrip(b, v); viol != nil {
+		pc := gen.PCase{Vals: ref.ToJ(b.Spec, v)}
+		rec.ReportSeq(t, "roundtrip", pc, func() *vk.Violation { return gen.RoundTrip(b, v) })
+		// and the layout: 8 + 7 + 10 + 10 + 21 + 4 octets, NUL padded, octet for octet
+		if viol := gen.LayoutEncode(b, v); viol != nil {
 			rec.Report(t, "roundtrip", viol)
 		}
 		if img, err := b.Fill(v).IEncode(); err == nil && len(img) != 60 {
